@@ -28,7 +28,7 @@ REQUIRED_REACH = ["xgcm.padding._pad_face_connections", "xgcm.grid.Grid._1d_grid
                   "xgcm.grid.Grid._apply_vector_function", "xgcm.grid.Grid.interp_like"]
 
 SIMPLE_OPS = ["diff", "interp", "min", "max", "cumsum", "cumint", "derivative", "integrate", "average", "get_metric", "interp_like",
-              "ufunc", "pad", "vec_diff", "vec_interp", "diff_multi", "mw_diff", "transform_lin", "transform_cons", "transform_anon",
+              "ufunc", "gu_call", "gu_override", "pad", "vec_diff", "vec_interp", "diff_multi", "mw_diff", "transform_lin", "transform_cons", "transform_anon",
               "lazy_diff", "bad_axis", "bad_to", "bad_boundary", "bad_fill", "diff_to_dict"]
 FACE_OPS = ["diff", "interp", "max", "vec_diff", "vec_interp", "vec_multi", "diff_2d_vector", "interp_2d_vector", "pad_scalar",
             "pad_vector", "lazy_vec", "bad_axis", "vec_no_other", "cumsum"]
@@ -107,6 +107,13 @@ def build_world(desc):
         W["td_anon"] = xr.DataArray(np.stack([np.arange(5.0) + 0.5, np.arange(5.0) * 2 + 1]), dims=["time", "zc"])
         W["td_outer"] = xr.DataArray(np.stack([np.arange(6.0), np.arange(6.0) * 2]), dims=["time", "zo"], name="dens")
         W["lazy"] = W["da"].chunk({"time": 1, "xc": 2})
+        from xgcm import as_grid_ufunc
+
+        W["GU_BW"] = {"P": (1, 0)}
+        W["GU_B"] = {"X": "fill", "Y": "extend"}
+        W["GU_F"] = {"X": 4.0}
+        W["gu"] = as_grid_ufunc(signature="(P:center)->(P:left)", boundary_width=W["GU_BW"], boundary=W["GU_B"], fill_value=W["GU_F"])(
+            lambda a: a[..., 1:] - a[..., :-1])
         return W
     if desc["topo"] == "junction":
         N, nf = 3, 2
@@ -176,6 +183,10 @@ def do(op, W, g, desc):
                                          boundary_width=W["BW"], boundary=W["B"], fill_value=W["F"])
         if op == "pad":
             return pad(W["da"], g, W["PW"], boundary=W["B"], fill_value=W["F"])
+        if op == "gu_call":
+            return W["gu"](g, W["da"], axis=[("X",)])
+        if op == "gu_override":
+            return W["gu"](g, W["da"], axis=[("X",)], boundary=W["B"], fill_value=W["F"])
         if op == "vec_diff":
             return g.diff(W["VD"], "X", other_component=W["OC"], boundary=W["B"])
         if op == "vec_interp":
